@@ -27,6 +27,10 @@ enum Lat {
     And,
     SetUnion,
     SetIntersect,
+    /// merge through another function table: `:merge (lubt old new)`, lubt = max on the value domain
+    NestedMax,
+    /// composite expression: `:merge (min (max old new) 7)` (max capped at 7: ACI on the domain)
+    CappedMax,
 }
 
 #[derive(Clone, Debug, PartialEq, Eq, PartialOrd, Ord)]
@@ -69,6 +73,8 @@ impl Lat {
             Lat::And => ("bool", "(and old new)"),
             Lat::SetUnion => ("IS", "(set-union old new)"),
             Lat::SetIntersect => ("IS", "(set-intersect old new)"),
+            Lat::NestedMax => ("i64", "(lubt old new)"),
+            Lat::CappedMax => ("i64", "(min (max old new) 7)"),
         }
     }
     fn fold(&self, a: &Val, b: &Val) -> Val {
@@ -79,12 +85,16 @@ impl Lat {
             (Lat::And, Val::B(x), Val::B(y)) => Val::B(*x && *y),
             (Lat::SetUnion, Val::S(x), Val::S(y)) => Val::S(x.union(y).copied().collect()),
             (Lat::SetIntersect, Val::S(x), Val::S(y)) => Val::S(x.intersection(y).copied().collect()),
+            (Lat::NestedMax, Val::I(x), Val::I(y)) => Val::I(*x.max(y)),
+            (Lat::CappedMax, Val::I(x), Val::I(y)) => Val::I((*x.max(y)).min(7)),
             _ => unreachable!(),
         }
     }
     fn sample(&self, rng: &mut Rng) -> Val {
         match self {
-            Lat::Min | Lat::Max => Val::I(rng.range(-5, 9)),
+            Lat::Min | Lat::Max | Lat::NestedMax => Val::I(rng.range(-5, 9)),
+            // values stay <= 7 so that a single write equals its own capped fold
+            Lat::CappedMax => Val::I(rng.range(-5, 7)),
             Lat::Or | Lat::And => Val::B(rng.chance(1, 2)),
             _ => Val::S((0..rng.below(4)).map(|_| rng.range(0, 5)).collect()),
         }
@@ -146,8 +156,19 @@ struct Case {
 fn prelude(c: &Case) -> String {
     let (out, merge) = c.lat.decl();
     let args = if c.arity2 { "K i64" } else { "K" };
+    let nested = if c.lat == Lat::NestedMax {
+        let mut t = String::from("(function lubt (i64 i64) i64 :merge (max old new))\n");
+        for x in -5..=9 {
+            for y in -5..=9 {
+                t.push_str(&format!("(set (lubt {x} {y}) {})\n", x.max(y)));
+            }
+        }
+        t
+    } else {
+        String::new()
+    };
     format!(
-        "(sort K)\n(sort IS (Set i64))\n(constructor A0 () K)\n(constructor A1 () K)\n(constructor A2 () K)\n(constructor A3 () K)\n(constructor A4 () K)\n(constructor F (K) K)\n(function f ({args}) {out} :merge {merge})\n(relation Step (i64))\n(ruleset w)\n(A0) (A1) (A2) (A3) (A4) (F (A0)) (F (A1)) (F (A2)) (F (A3))"
+        "{nested}(sort K)\n(sort IS (Set i64))\n(constructor A0 () K)\n(constructor A1 () K)\n(constructor A2 () K)\n(constructor A3 () K)\n(constructor A4 () K)\n(constructor F (K) K)\n(function f ({args}) {out} :merge {merge})\n(relation Step (i64))\n(ruleset w)\n(A0) (A1) (A2) (A3) (A4) (F (A0)) (F (A1)) (F (A2)) (F (A3))"
     )
 }
 
@@ -230,7 +251,7 @@ pub fn run(a: &Args) -> Report {
     let terms = key_terms();
     for case in 0..n {
         let mut rng = root.fork(case);
-        let lat = *rng.pick(&[Lat::Min, Lat::Max, Lat::Or, Lat::And, Lat::SetUnion, Lat::SetIntersect, Lat::SetUnion]);
+        let lat = *rng.pick(&[Lat::Min, Lat::Max, Lat::Or, Lat::And, Lat::SetUnion, Lat::SetIntersect, Lat::SetUnion, Lat::NestedMax, Lat::CappedMax]);
         let c = Case {
             lat,
             arity2: rng.chance(1, 3),
